@@ -195,6 +195,13 @@ class GridImpl:
         if k == "remove":
             g.remove_agent(A[int(w[1])])
             return "ok", None
+        if k == "foreign":
+            # outside the quantifier: a second grid of the same class and shape places the agent (writes agent.pos)
+            a, p = A[int(w[1])], (int(w[2]), int(w[3]))
+            if a.pos is not None or not (0 <= p[0] < self.w and 0 <= p[1] < self.h):
+                return "bad-op", None
+            type(g)(self.w, self.h, self.torus).place_agent(a, p)
+            return "ok", None
         if k == "move":
             g.move_agent(A[int(w[1])], (int(w[2]), int(w[3])))
             return "ok", None
@@ -522,6 +529,19 @@ def exhaustive_index_c08():
     return out
 
 
+def foreign_agent_scenarios():
+    """outside the quantifier, tie only: an agent that lives on another grid is removed / moved / swapped here (SingleGrid.remove_agent
+    clears the cell without looking and evicts the occupant; MultiGrid raises ValueError)"""
+    out = []
+    for kind in KINDS:
+        for torus in (0, 1):
+            lines = [grid_header(kind, 3, 2, torus, False, 4), "place 1 1 1", "place 2 0 0", "empties", "foreign 0 1 1", "dump",
+                     "remove 0", "dump", "empties", "mask", "agents", "foreign 0 0 0", "move 0 2 1", "dump", "foreign 3 2 1", "swap 3 2",
+                     "dump", "remove 1", "dump", "foreign 1 2 0", "mto 1 closest none 2 0 1 5 5 : 1 0", "dump", "mte 2 : 3", "dump"]
+            out.append(core.Scenario(lines, {"oq": True}))
+    return out
+
+
 def gen_c08(R, tier, rejecting=False):
     kind = R.choice(KINDS)
     m = R.random()
@@ -625,6 +645,8 @@ def gen_c08(R, tier, rejecting=False):
                 b.add(f"move {R.choice(unplaced)} {x} {y}")
             elif kind_ == "mte-unplaced":
                 b.add(f"mte {R.choice(unplaced)} : " + " ".join(map(str, mte_script(R, impl))))
+        elif oq and unplaced and k < 0.10:
+            b.add(f"foreign {R.choice(unplaced)} {R.randrange(w)} {R.randrange(h)}")
         elif k < 0.22 and (unplaced or (oq and placed)):
             a = R.choice(placed) if (oq and placed and (not unplaced or R.random() < 0.6)) else R.choice(unplaced)
             x, y = R.randrange(w), R.randrange(h)
@@ -1038,8 +1060,8 @@ def oracle_c08_net(sc, obs, H):
 
 def oracle_c08(sc, obs):
     H = _hdr(sc)
-    if sc.meta.get("oq"):
-        return []
+    if sc.meta.get("oq") or any(l.startswith("foreign ") for l in sc.lines):
+        return []  # outside the quantifier (also after shrinking): model-vs-code tie only
     if H["type"] == "net":
         return oracle_c08_net(sc, obs, H)
     tr = sc.meta.get("trace") or []
